@@ -615,7 +615,7 @@ typedef struct rawget_s { const ent_t *want; int calls, right; } rawget_t;
  * built-in bloom's) say "absent" to everything - harmless as long as they are only shown filters they built
  * themselves, because their build() records the keys' count only and a table whose filter they built is never
  * read through them here; [2] "m.verif.OneByte" writes a one-byte filter per range and accepts everything */
-static uint64_t n_foreign_policy_gets;
+static uint64_t n_foreign_policy_gets, n_explicit_flushes;
 static void fp_build(const ldb_bloom_t *b, ldb_buffer_t *dst, const ldb_slice_t *keys, size_t length) {
   (void)b; (void)keys;
   ldb_buffer_push(dst, (int)(length & 0x7f));
@@ -696,6 +696,12 @@ run_raw(int cfgi, unsigned mask, int pat, fail_t *f) {
   for (i = 0; i < n; i++) {
     ldb_slice_t k = ldb_slice(E[i].k, E[i].kn), v = ldb_slice(E[i].v, E[i].vn);
     ldb_tablegen_add(tb, &k, &v);
+    /* hand-placed block boundaries (the builder's "advanced" flush call): pattern 1 = after every entry,
+       pattern 2 = after the first entry only, patterns 0, 3, 4 = none */
+    if (pat == 1 || (pat == 2 && i == 0)) {
+      ldb_tablegen_flush(tb);
+      n_explicit_flushes++;
+    }
   }
   rc = ldb_tablegen_finish(tb);
   size = ldb_tablegen_size(tb);
@@ -1608,7 +1614,7 @@ main(int argc, char **argv) {
            "\"lookups_nothing_reported_without_filter\":%llu,\"lookups_reported_next_user_key\":%llu,"
            "\"ref_decoded_entries\":%llu,\"ref_filter_probes\":%llu,\"data_blocks\":%llu,\"tables_with_snappy_blocks\":%llu,"
            "\"separator_pairs\":%llu,\"separators_shortened\":%llu,\"successor_cases\":%llu,\"snappy_strings\":%llu,"
-           "\"snappy_input_bytes\":%llu,\"raw_key_tables\":%llu,\"raw_key_lookups\":%llu,\"raw_single_entry_blocks_over_2k\":%llu,\"lookups_with_reader_policy_other_than_writer\":%llu",
+           "\"snappy_input_bytes\":%llu,\"raw_key_tables\":%llu,\"raw_key_lookups\":%llu,\"raw_single_entry_blocks_over_2k\":%llu,\"lookups_with_reader_policy_other_than_writer\":%llu,\"explicit_builder_flushes\":%llu",
            (unsigned long long)n_eval, (stopped || drv.replay) ? "false" : "true", (unsigned long long)n_tables,
            (unsigned long long)n_witness, (unsigned long long)n_seeks, (unsigned long long)n_iter_steps,
            (unsigned long long)n_gets, (unsigned long long)n_gets_found, (unsigned long long)n_gets_nocb_filter,
@@ -1616,7 +1622,7 @@ main(int argc, char **argv) {
            (unsigned long long)n_filter_probes, (unsigned long long)n_blocks, (unsigned long long)n_compressed_tables,
            (unsigned long long)n_sep_pairs, (unsigned long long)n_sep_shortened, (unsigned long long)n_succ,
            (unsigned long long)n_snappy, (unsigned long long)n_snappy_bytes, (unsigned long long)n_raw_tables,
-           (unsigned long long)n_raw_gets, (unsigned long long)n_raw_big_single_blocks, (unsigned long long)n_foreign_policy_gets);
+           (unsigned long long)n_raw_gets, (unsigned long long)n_raw_big_single_blocks, (unsigned long long)n_foreign_policy_gets, (unsigned long long)n_explicit_flushes);
   drv_result(res);
   return 0;
 }
